@@ -4,7 +4,7 @@ From Coq Require Import List Arith NArith ZArith Bool Lia.
 From OG Require Import C05.Model C05.Proofs.
 Import ListNotations.
 
-Definition good_cfg (c : config) : Prop := wal_on c = true /\ clamp c = true.
+Definition good_cfg (c : config) : Prop := wal_on c = true /\ clamp c = true /\ snap_install c = false.
 
 Record node_ok (g : list entry) (x : node) : Prop := mkOk {
   ok_hc : hcommit x <= length g;
@@ -115,7 +115,7 @@ Section RaftFacts.
 
   Lemma step_inv : forall s e s', good_cfg (cfg s) -> Inv s -> step raft_ok s e = Some s' -> Inv s'.
   Proof.
-    intros s e s' [Hwal Hclamp] HI H. unfold Inv in *.
+    intros s e s' (Hwal & Hclamp & Hnosnap) HI H. unfold Inv in *.
     destruct e; cbn [step] in H.
     - (* Propose *)
       destruct (avail (nodes s n)) eqn:Hav; [|discriminate].
@@ -143,7 +143,9 @@ Section RaftFacts.
       inversion H; subst; cbn. destruct HI as (HN & HL & HQ). split; [assumption|split; [|assumption]].
       intros l Hl; discriminate.
     - (* RReplicate *)
-      destruct (raft_ok s (RReplicate m k)) eqn:Hr; [|discriminate]. inversion H; subst; clear H.
+      destruct (raft_ok s (RReplicate m k)) eqn:Hr; [|discriminate]. cbn [andb] in H.
+      destruct (match leader s with Some l => Nat.leb (efirst (nodes s l)) (length (elog (nodes s m))) | None => false end); [|discriminate].
+      inversion H; subst; clear H.
       destruct (H_repl _ _ _ Hr) as (l & Hl & Hml & Hum & Hhc & Hk & Hkeep).
       cbn [raft_effect]. rewrite Hl. cbn. destruct HI as (HN & HL & HQ).
       destruct (HL l Hl) as [Hpl Hul].
@@ -234,10 +236,31 @@ Section RaftFacts.
       + intros Hd; congruence.
     - (* TruncPropose *)
       destruct (leader s) as [l|] eqn:Hl; [|discriminate].
-      destruct (avail (nodes s l) && all_up s && negb (Nat.eqb (snap (nodes s l)) 0)); [|discriminate].
+      match type of H with (if ?b then _ else _) = _ => destruct b; [|discriminate] end.
       inversion H; subst; cbn. rewrite Hl.
       apply inv_set_node; [assumption| |cbn; eexists; reflexivity|reflexivity].
       apply node_ok_elog_ext. destruct HI as (HN & _ & _). apply HN.
+    - (* TruncForce *)
+      destruct (leader s) as [l|] eqn:Hl; [|discriminate].
+      match type of H with (if ?b then _ else _) = _ => destruct b; [|discriminate] end.
+      inversion H; subst; cbn. rewrite Hl.
+      apply inv_set_node; [assumption| |cbn; eexists; reflexivity|reflexivity].
+      apply node_ok_elog_ext. destruct HI as (HN & _ & _). apply HN.
+    - (* TruncLocal *)
+      set (x := nodes s n) in *.
+      destruct (avail x) eqn:Hav; cbn [andb] in H; [|discriminate]. apply avail_up in Hav.
+      match type of H with (if ?b then _ else _) = _ => destruct b; [|discriminate] end.
+      inversion H; subst; cbn.
+      apply inv_set_node; [assumption| |apply pre_refl|reflexivity].
+      destruct HI as (HN & _ & _). specialize (HN n). fold x in HN. destruct HN as [A B C D E].
+      destruct (D Hav) as (D1 & D2 & D3 & D4 & D5 & D6 & D7).
+      pose proof (tr_first_le (fsz (cfg s)) (snap x)) as Ht.
+      constructor; cbn -[Nat.max tr_first]; try assumption.
+      + unfold tr_first in *. destruct (Nat.eqb (snap x) 0) eqn:E0; [lia|]. apply Nat.eqb_neq in E0. lia.
+      + intros _. repeat split; try assumption; lia.
+      + intros Hd; congruence.
+    - (* RSnapshot *)
+      destruct (leader s) as [l|]; [|discriminate]. rewrite Hnosnap in H. cbn in H. discriminate.
     - (* Kill *)
       set (x := nodes s n) in *.
       destruct (up x) eqn:Hu; [|discriminate]. inversion H; subst; clear H; cbn.
